@@ -206,10 +206,10 @@ def run_case(case):
 
 
 # ------------------------------------------------------------------------------------------------
-GM_FORMS = ['default', 'class', 'name', 'instance', 'fitted-instance', 'instance-positional', 'instance-one-bound',
+GM_FORMS = ['default', 'class', 'name', 'instance', 'instance-no-args', 'fitted-instance', 'instance-positional', 'instance-one-bound',
             'wrapper-positional',
             'dict-all', 'dict-subset', 'dict-mixed', 'boom-class', 'boom-name', 'boom-instance', 'boom-dict',
-            'dict-reused-after-fallback', 'wrapper-selection-sample', 'same-class-name-strings', 'same-class-name-strings-reversed']
+            'dict-reused-after-fallback', 'wrapper-selection-sample', 'same-class-name-strings', 'same-class-name-strings-reversed', 'user-subclass-instance']
 
 
 def _table(t):
@@ -269,6 +269,36 @@ def _gm(r, case):
         r.hit(f'gm:{form}')
         r['sample'] = {'form': form, 'table': t}
         return r
+    if form == 'user-subclass-instance':
+        # an instance prototype of a USER subclass whose constructor signature differs from its parent's (both record their
+        # arguments with the library's own decorator): the copy made for each column is configured like the prototype
+        from copulas.utils import store_args
+
+        class Shifted(U.TruncatedGaussian):
+            @store_args
+            def __init__(self, lo, random_state=None):
+                super().__init__(minimum=lo, maximum=lo + 40.0, random_state=random_state)
+
+        proto = Shifted(-5.0)
+        gmu = GaussianMultivariate(distribution=proto)
+        r.tr()
+        r.ev()
+        try:
+            gmu.fit(df.copy())
+            for c, u in zip(cols, gmu.univariates):
+                p_ = u.to_dict()
+                ok_ = type(u).__name__ == 'Shifted' and abs(p_['loc'] + p_['a'] * p_['scale'] + 5.0) <= 1e-6 and \
+                    abs(p_['loc'] + p_['b'] * p_['scale'] - 35.0) <= 1e-6
+                if not ok_:
+                    r.violation(f'C05:gm:prototype-options:{form}', f'GaussianMultivariate(distribution=Shifted(-5.0)) on table {t}: '
+                                f'column {c!r} is modelled by {type(u).__name__} with parameters {p_}', case=case)
+                    break
+        except Exception as e:
+            r.violation(f'C05:gm:fit-raises:{form}', f'GaussianMultivariate(distribution=Shifted(-5.0)): fit raised '
+                        f'{type(e).__name__}: {e}', case=case)
+        r.hit(f'gm:{form}')
+        r['sample'] = {'form': form, 'table': t}
+        return r
     if form.startswith('same-class-name-strings'):
         # two qualified names that end in the same class name are two different distributions, whichever is looked up first
         lib, mine = 'copulas.univariate.gaussian.GaussianUnivariate', 'mc.boom.GaussianUnivariate'
@@ -315,6 +345,7 @@ def _gm(r, case):
         'class': U.GammaUnivariate,
         'name': 'copulas.univariate.gaussian_kde.GaussianKDE',
         'instance': U.GaussianKDE(bw_method=0.5),
+        'instance-no-args': U.GammaUnivariate(),
         'fitted-instance': fitted_proto,
         'instance-positional': U.TruncatedGaussian(0.0, 12.0),
         'instance-one-bound': U.TruncatedGaussian(minimum=-2.5),
@@ -392,6 +423,23 @@ def _gm(r, case):
         for c in cols:
             if expect(c, {'GaussianKDE'}, 'qualified name for all columns'):
                 kde_bw(c, None)
+    elif form == 'instance-no-args':
+        for c in cols:
+            expect(c, {'GammaUnivariate'}, 'instance prototype of a class without stored constructor arguments')
+        us = gm.univariates
+        if len({id(u) for u in us}) != len(us) or any(u is dist for u in us) or getattr(dist, 'fitted', False):
+            r.violation(f'C05:gm:shared-instance:{form}', f'{tag}: columns share one univariate object / the prototype itself was '
+                        f'fitted', case=case)
+        else:
+            for c in cols:
+                x_ = df[c].to_numpy(dtype=float)
+                ref_ = U.GammaUnivariate()
+                ref_.fit(x_.copy())
+                pts_ = np.quantile(x_, [0.1, 0.5, 0.9])
+                if not np.allclose(np.asarray(gm.univariates[cols.index(c)].cdf(pts_), float), np.asarray(ref_.cdf(pts_), float),
+                                   rtol=1e-9, atol=1e-12):
+                    r.violation(f'C05:gm:prototype-options:{form}', f'{tag}: the marginal of column {c!r} is not a Gamma fitted to '
+                                f'that column', case=case)
     elif form in ('instance', 'fitted-instance'):
         for c in cols:
             if expect(c, {'GaussianKDE'}, 'instance prototype for all columns'):
